@@ -7,7 +7,7 @@ from .c01 import merge_stats
 RULE = ('random layer sequences (see C02) whose layer *objects* are created once and composed in up to 5 bracketings / '
         'flavours (flat Chain, >>, random nested Chain / LazyChain / >> trees), plus one pipeline that uses a layer object '
         'twice (compared with a fresh copy at the second position), plus decoy instances of the same classes with ==-equal '
-        'arguments; every operand and every earlier pipeline is re-observed after all compositions. Observed per variant: '
+        'arguments; plus one Filter / keep / GroupBy / CacheToRam / Transform object shared by two pipelines over different sources with equal field names (compared with fresh copies, ids, values, errors and hashes); every operand and every earlier pipeline is re-observed after all compositions. Observed per variant: '
         'dir, and for 8 names signature, symbolic value, NodeHash tree or exception class. The most nested variant is also '
         'compared with CM.Model.Pipe/Stack. Non-trivial: >= 3 variants constructed; distinct by JSON of the sequence')
 
@@ -29,7 +29,7 @@ def run(tier, seed, res, lean):
         'evaluations': stats['variants'], 'distinct_nontrivial': stats['distinct_nontrivial'], 'rule': RULE,
         'programs': stats['cases'], 'disagreements_checked': len(model_bad) + len(problems),
         'samples': [o[3] for o in outs[:1] if o[3]] or [{'note': 'none'}],
-        'distribution': {k: stats[k] for k in ('cases', 'variants', 'with_nested', 'twice', 'construct_err')},
+        'distribution': {k: stats[k] for k in ('cases', 'variants', 'with_nested', 'twice', 'construct_err', 'shared_dynamic')},
     })
 
 
